@@ -125,12 +125,12 @@ Definition refused_504 {A} (r : A + rfail) : Prop := exists ec msg, r = inr (504
 Theorem honour_smtputf8 cfg o bm :
   (cf_utf8 cfg = true -> accepted (mail_param cfg (bs "SMTPUTF8") [] o bm)) /\
   (cf_utf8 cfg = false -> refused_504 (mail_param cfg (bs "SMTPUTF8") [] o bm)).
-Proof. unfold mail_param, accepted, refused_504; cbn; split; intros ->; eauto. Qed.
+Proof. unfold mail_param, accepted, refused_504; cbn; split; intros ->; cbn; eauto. Qed.
 
 Theorem honour_requiretls cfg o bm :
   (cf_requiretls cfg = true -> accepted (mail_param cfg (bs "REQUIRETLS") [] o bm)) /\
   (cf_requiretls cfg = false -> refused_504 (mail_param cfg (bs "REQUIRETLS") [] o bm)).
-Proof. unfold mail_param, accepted, refused_504; cbn; split; intros ->; eauto. Qed.
+Proof. unfold mail_param, accepted, refused_504; cbn; split; intros ->; cbn; eauto. Qed.
 
 Theorem honour_binarymime cfg o bm :
   (cf_binarymime cfg = true -> accepted (mail_param cfg (bs "BODY") (bs "BINARYMIME") o bm)) /\
